@@ -570,3 +570,21 @@ def var_uses(src, name="v"):
     st = sum(1 for n in ast.walk(tree) if isinstance(n, ast.Name) and n.id == name and isinstance(n.ctx, ast.Store))
     ld = sum(1 for n in ast.walk(tree) if isinstance(n, ast.Name) and n.id == name and isinstance(n.ctx, ast.Load))
     return st, ld
+
+
+# ------------------------------------------------------------------ C04: histories of inline requests (spec/PyInlineSeq.tla)
+def render_chain_program(nfuncs, names, forms):
+    """f1 (host) calls f2 calls f3 ...; every function keeps a temporary alive across its call.
+    forms[i]: "rhs" (w = f(v); return t + w) or "nested" (return t + f(v)) for the call made by f<i+1>"""
+    out = ""
+    for i in range(nfuncs, 0, -1):
+        t = names[i - 1]
+        out += "def f%d(v):\n    %s = v + %d\n" % (i, t, 10 * i)
+        if i == nfuncs:
+            out += "    return %s\n" % t
+        elif forms[i - 1] == "rhs":
+            out += "    w%d = f%d(v)\n    return %s + w%d\n" % (i, i + 1, t, i)
+        else:
+            out += "    return %s + f%d(v)\n" % (t, i + 1)
+        out += "\n\n"
+    return out + "print(f1(1), f1(5))\n"
